@@ -80,6 +80,7 @@ deriving Repr, Inhabited
 inductive Col where
   | scalar (e : EE)
   | seq (c : Chain)
+  | first (c : Chain)      -- First() of a chain that ends in numbers, as a column
 deriving Repr, Inhabited
 
 inductive FQ where
@@ -156,6 +157,7 @@ def eeQ (ev : String) : EE → Query
 def colQ (ev : String) : Col → Query
   | .scalar e => eeQ ev e
   | .seq c => chainQ ev c
+  | .first c => .first (chainQ ev c)
 
 def FQ.toQuery : FQ → Query
   | .eventRows cols => .select .ds "e" (.dict (cols.map (·.1)) (cols.map fun p => colQ "e" p.2))
@@ -313,6 +315,14 @@ def compCol (B : Backend) (nm cn : Nat → String) (idx : Nat) (col : Col) (n : 
     let f := compChain B nm c n (fun cur _ => [.push v cur])
     let ety := ((chainTy none c.steps).getD .double).cpp
     ⟨f.decls, f.stmts, [], [.clear v], ("std::vector<" ++ ety ++ ">", v), f.next⟩
+  | .first c =>
+    -- `bool is_first (true);` outside the loop, the capture guarded inside, throw-if-still-first after
+    let fl := nm n
+    let f := compChain B nm c (n + 1) (fun cur _ => [.ite (.var fl) [.set fl (.bool false), .set v cur] []])
+    let ety := ((chainTy none c.steps).getD .double).cpp
+    ⟨f.decls ++ [.decl "bool" fl (some (.bool true))],
+     f.stmts ++ [.ite (.var fl) [.throw "First() called on an empty sequence"] []],
+     [], [], (ety, v), f.next⟩
 
 def compCols (B : Backend) (nm cn : Nat → String) : List Col → Nat → Nat → List ColFrag
   | [], _, _ => []
@@ -342,6 +352,7 @@ def banksOf (B : Backend) : List Stmt → List String → List (String × String
 def colBanks : List Col → List String
   | [] => []
   | .seq c :: rest => c.bank :: colBanks rest
+  | .first c :: rest => c.bank :: colBanks rest
   | .scalar e :: rest => eeBanks e ++ colBanks rest
 where eeBanks : EE → List String
   | .count c => [c.bank]
